@@ -99,3 +99,109 @@ pub fn std_event(case: &Value) -> Value {
     }
     ev
 }
+
+/// Smallest d <= 500 with |f - n/d| <= 1e-6 * max(1, |f|): the unique small
+/// rational next to a float answer (two such rationals differ by >= 4e-6).
+pub fn snap(f: f64) -> Option<(i64, i64)> {
+    if !f.is_finite() || f.abs() > 1.0e6 {
+        return None;
+    }
+    let tol = 1e-6 * f.abs().max(1.0);
+    for d in 1..=500i64 {
+        let n = (f * d as f64).round();
+        if (f - n / d as f64).abs() <= tol {
+            return Some((n as i64, d));
+        }
+    }
+    None
+}
+
+/// A float answer for TLC: exact small rational when one exists, and always the
+/// value rounded to 1e-4 units for the coarse comparison.
+pub fn num_obs(f: f64) -> Value {
+    let coarse = if f.is_finite() && f.abs() < 2.0e5 { (f * 1.0e4).round() as i64 } else { 0 };
+    let usable = f.is_finite() && f.abs() < 2.0e5;
+    match snap(f) {
+        Some((n, d)) if n.abs() < (1 << 24) => json!({"snap":true,"n":n,"d":d,"c":coarse,"ok":usable}),
+        _ => json!({"snap":false,"n":0,"d":1,"c":coarse,"ok":usable}),
+    }
+}
+
+fn err_obs(e: &rooc::SolverError) -> Value {
+    json!({"kind": solver_err_kind(e), "text": e.to_string()})
+}
+
+fn solution_obs<T: Copy + Into<f64> + serde::Serialize + serde::de::DeserializeOwned + std::fmt::Display>(
+    s: &rooc::LpSolution<T>,
+) -> Value {
+    let point: Vec<Value> = s
+        .assignment()
+        .iter()
+        .map(|a| {
+            let f: f64 = a.value.into();
+            json!({"name":a.name,"v":num_obs(f)})
+        })
+        .collect();
+    let cons: Vec<Value> = s.constraints().iter().map(|(k, v)| json!({"name":k,"v":num_obs(*v)})).collect();
+    let duals: Vec<Value> = s.shadow_prices().iter().map(|(k, v)| json!({"name":k,"v":num_obs(*v)})).collect();
+    json!({
+        "point": point,
+        "cons": cons,
+        "duals": duals,
+        "value": num_obs(s.value()),
+        "status": format!("{:?}", s.status()),
+    })
+}
+
+pub const WATCHDOG_S: u64 = 10;
+pub const ENTRIES: [&str; 5] = ["milp", "auto", "real_microlp", "clarabel", "simplex"];
+
+/// C04 / C05: one event per (model, solver entry point).
+pub fn solve_events(case: &Value, entries: &[&str], out: &mut Vec<Value>) {
+    let lm = lm_from_case(case);
+    for entry in entries {
+        let mut ev = case.clone();
+        ev["entry"] = json!(entry);
+        ev["id"] = json!(format!("{}:{}", case["id"].as_str().unwrap_or("?"), entry));
+        // each call runs in its own thread under a watchdog: a solver that does not
+        // return within WATCHDOG is recorded as a timeout (the thread is abandoned)
+        let lmc = lm.clone();
+        let entry_s = entry.to_string();
+        let (tx, rx) = std::sync::mpsc::channel();
+        std::thread::Builder::new()
+            .stack_size(64 << 20)
+            .spawn(move || {
+                let lmr = &lmc;
+                let res: Result<Result<Value, rooc::SolverError>, _> = catch_unwind(AssertUnwindSafe(|| match entry_s.as_str() {
+                    "milp" => rooc::solve_milp_lp_problem(lmr).map(|s| solution_obs(&s)),
+                    "auto" => rooc::auto_solver(lmr).map(|s| solution_obs(&s)),
+                    "real_microlp" => rooc::solve_real_lp_problem_micro_lp(lmr).map(|s| solution_obs(&s)),
+                    "clarabel" => rooc::solve_real_lp_problem_clarabel(lmr).map(|s| solution_obs(&s)),
+                    "simplex" => rooc::solve_real_lp_problem_slow_simplex(lmr, 1000).map(|s| solution_obs(&s)),
+                    other => panic!("entry {other}"),
+                }));
+                let _ = tx.send(res.map_err(|_| ()));
+            })
+            .unwrap();
+        let res = match rx.recv_timeout(std::time::Duration::from_secs(WATCHDOG_S)) {
+            Ok(r) => r,
+            Err(_) => {
+                ev["out"] = json!("timeout");
+                out.push(ev);
+                continue;
+            }
+        };
+        match res {
+            Err(_) => ev["out"] = json!("panic"),
+            Ok(Err(e)) => {
+                ev["out"] = json!("error");
+                ev["err"] = err_obs(&e);
+            }
+            Ok(Ok(sol)) => {
+                ev["out"] = json!("solution");
+                ev["sol"] = sol;
+            }
+        }
+        out.push(ev);
+    }
+}
